@@ -8,7 +8,11 @@
 (* constructor defaults "unknown" / no comment and no extra pairs).        *)
 (*                                                                         *)
 (* Two kinds of trace                                                      *)
-(*  [kind |-> "parse", aea, wf, lines]                                     *)
+(*  [kind |-> "parse", aea, wf, form, lines]                               *)
+(*     form: "text" (str / bytes) or "lines" (file object, iterable of     *)
+(*     lines): how the text was handed to the constructor / to             *)
+(*     parse_changelog of an existing object (the empty-file rule exists   *)
+(*     for the text forms only).                                           *)
 (*     lines[i] = [c, v, h, ok, sr, w, nb, ini, ch, tr, fmt, nf, rt, doc]  *)
 (*     c: the class of the i-th line as decided by the INDEPENDENT         *)
 (*     classifier, v its interned text, h the interned header / trailer    *)
@@ -32,7 +36,12 @@
 (*     a Changelog-level editing call (EditOps), a call on block i through *)
 (*     the block object (BSet attribute x, in-place ChAppend / ChInsert /  *)
 (*     ChDelete at x / AddTrailing / BRest = other_pairs[k] = v), or       *)
-(*     Fmt = str(block i) -- with interned arguments v, and after it:      *)
+(*     Fmt = str(block i), MutVer = in-place edit of the Version object    *)
+(*     handed out for block i, Reparse = the initial text parsed again     *)
+(*     into a new object whose blocks are rp, SetVersionWS = cl.version =  *)
+(*     valid version + white space (v = <<0>> rejected with ValueError,    *)
+(*     else the version shown afterwards) -- with interned arguments v,    *)
+(*     and after it:                                                       *)
 (*     ok no unexpected exception; fobs the changelog (Fmt: the block) was *)
 (*     formatted after the call, then fmt it succeeded, out its lines as   *)
 (*     [c, v, h] from the independent classifier, nf the fixpoint law held;*)
@@ -99,7 +108,7 @@ TParse ==
           ln == TraceLine(e)
           b  == BranchOf(P.st, P.old, e.c, aea)
           p2 == PStep(P, ln, aea)
-          r  == PEof(p2)
+          r  == PEofF(p2, Tr.form)
           g2 == IF Tr.wf THEN GNext(gs, e.c) ELSE "off"
           counts == /\ e.nb = Len(r.doc.bl) /\ e.w = r.nw /\ e.ini = Len(r.doc.ini)
                     /\ e.ch = [i \in 1..Len(r.doc.bl) |-> Len(r.doc.bl[i].ch)]
@@ -129,6 +138,8 @@ OutMatches(o, t) ==
          THEN o[i].h = t[i].h /\ (t[i].c \in EndDetailed => o[i].c = t[i].c)
          ELSE o[i].v = t[i].id
 
+Masked(bl, m) == [j \in 1..Len(bl) |-> IF j \in m THEN [bl[j] EXCEPT !.h[2] = 0] ELSE bl[j]]
+
 TEdit ==
    /\ Tr.kind = "edit" /\ l <= N
    /\ LET e    == Tr.ops[l]
@@ -136,9 +147,18 @@ TEdit ==
           op3  == <<e.op, e.i, e.x>>
           d2   == IF old THEN EditApply(D, e.op, e.v)
                   ELSE IF e.op = "BRest" THEN [D EXCEPT !.bl[e.i].h[5] = e.v[1]]      \* other_pairs after an in-place edit, as observed
+                  ELSE IF e.op = "Reparse" THEN D
                   ELSE HApply(D, op3, e.v)
           en   == IF old THEN EditEnabled(D, e.op)
-                  ELSE IF e.op = "BRest" THEN e.i \in 1..Len(D.bl) ELSE HValid(D, op3)
+                  ELSE IF e.op = "BRest" THEN e.i \in 1..Len(D.bl)
+                  ELSE IF e.op = "Reparse" THEN TRUE ELSE HValid(D, op3)
+          \* blocks whose own handed-out Version object was edited in place: their version is not judged
+          mut2 == IF e.op = "MutVer" THEN rs.mut \cup {e.i}
+                  ELSE IF e.op \in {"NewBlockFull", "NewBlockEmpty"} THEN {j + 1 : j \in rs.mut} ELSE rs.mut
+          shown == Masked(e.bl, mut2) = Masked(BlocksProj(d2), mut2)
+          \* Reparse: the text parsed at the start is parsed again into a NEW object (any input form): it
+          \* exposes what is written, whatever happened to other objects
+          again == e.op = "Reparse" => e.rp = BlocksProj(ParseText(TraceText(Tr.lines), aea).doc)
           tgt  == IF e.op = "Fmt" THEN e.i ELSE 0                   \* what was formatted after the call: the changelog or block i
           able == IF tgt = 0 THEN Formattable(d2) ELSE BlockFormattable(d2.bl[tgt])
           same == e.fobs => (e.fmt = able /\ (able => OutMatches(e.out, RefOut(d2, tgt))))
@@ -146,10 +166,12 @@ TEdit ==
          /\ D' = d2
          /\ e.ok                                                     \* the call returned; str() returned or said "incomplete"
          /\ (e.fobs /\ tgt = 0 /\ e.fmt /\ Specified(d2)) => e.nf        \* C15, histories
-         /\ Tr.wf => same                                            \* C04, histories: every output is the reference Format of the CURRENT document
-         /\ (~VerdictOnly => (same /\ e.bl = BlocksProj(d2)))
+         /\ Tr.wf => (same /\ shown /\ again)                        \* C04, histories: every output is the reference Format of the CURRENT
+                                                                     \* document; the blocks expose what was written / assigned
+         /\ (~VerdictOnly => (same /\ shown /\ again))
          /\ ((~VerdictOnly /\ l = 1) => Tr.bl0 = BlocksProj(D))
-   /\ l' = l + 1 /\ UNCHANGED <<P, sraised, gs>> /\ rs' = rs /\ Frame
+         /\ rs' = [rs EXCEPT !.mut = mut2]
+   /\ l' = l + 1 /\ UNCHANGED <<P, sraised, gs>> /\ Frame
    /\ (Diag => PrintT(<<"AT", tid, l>>))
    /\ (l' = N + 1 => PrintT(<<"ACCEPTED", tid>>))
 
